@@ -225,6 +225,9 @@ func (i *Domain) zeroStamp(
 	}
 	defer func() { err = errors.Combine(err, r.Close()) }()
 	startApprox, err := i.search(ref, r)
+	if err != nil {
+		return
+	}
 	readStamp := newStampReader()
 	if !startApprox.Exact() {
 		approx.Upper, err = readStamp(r, byteSize(startApprox.Upper))
